@@ -399,6 +399,7 @@ func runC13(e *Engine, r *Report) {
 	ruleCodecLenPrefix(e, r, 20, "raftpb", "sovRaft")
 	ruleCodecThresholds(e, r, 3, "raftpb", [][2]string{{"(*raftpb.Entry).Size", "(*raftpb.Entry).marshalTo"}, {"(*raftpb.Entry).SizeUpperLimit", "(*raftpb.Entry).marshalTo"}})
 	ruleVarintLadder(e, r, "raftpb.sovRaft")
+	ruleVarintDecodeLoops(e, r, 140, "raftpb", "client")
 	rulePayloadDecodeTotal(e, r)
 	ruleDecodeOwnsBytes(e, r, 10, c13AliasAccept, "raftpb")
 	ruleFrameHeaderCover(e, r)
